@@ -166,3 +166,28 @@ package volume
 //@ use psum_cong(res(Multiply, 0), mulS(closings, volumes), _)
 //@ use psum_cong(volumesSplice[1], volumes, _)
 //@ ensures[C01] "documented" forall k :: 0 <= k && k < len(result) ==> result[k] == vwmaS(closings, volumes, v.Sum.Period)[k]
+
+// ---- C18: scaling of the volume formulas (a is the factor by which the raw money flow scales: lam for prices, mu for volumes)
+//@ lemma rmfS_pscale(h stream, l stream, c stream, v stream, h2 stream, l2 stream, c2 stream, v2 stream, lam real, j int)
+//@ requires[C18] h2[j] == lam * h[j] && l2[j] == lam * l[j] && c2[j] == lam * c[j] && v2[j] == v[j]
+//@ ensures[C18] rmfS(h2, l2, c2, v2)[j] == lam * rmfS(h, l, c, v)[j]
+//@ use mul_lin(lam, h[j], l[j])
+//@ use mul_lin(lam, h[j] + l[j], c[j])
+//@ use div_scale(lam, h[j] + l[j] + c[j], 3)
+//@ use mul_assoc(lam, (h[j] + l[j] + c[j]) / 3, v[j])
+//@ lemma rmfS_vscale(h stream, l stream, c stream, v stream, h2 stream, l2 stream, c2 stream, v2 stream, mu real, j int)
+//@ requires[C18] h2[j] == h[j] && l2[j] == l[j] && c2[j] == c[j] && v2[j] == mu * v[j]
+//@ ensures[C18] rmfS(h2, l2, c2, v2)[j] == mu * rmfS(h, l, c, v)[j]
+//@ use mul_assoc(mu, (h[j] + l[j] + c[j]) / 3, v[j])
+//@ lemma mfS_scale(h stream, l stream, c stream, v stream, h2 stream, l2 stream, c2 stream, v2 stream, a real, j int)
+//@ requires[C18] a > 0 && rmfS(h2, l2, c2, v2)[j] == a * rmfS(h, l, c, v)[j] && rmfS(h2, l2, c2, v2)[j+1] == a * rmfS(h, l, c, v)[j+1]
+//@ ensures[C18] mfS(h2, l2, c2, v2)[j] == a * mfS(h, l, c, v)[j] && posmfS(h2, l2, c2, v2)[j] == a * posmfS(h, l, c, v)[j] && negmfS(h2, l2, c2, v2)[j] == a * negmfS(h, l, c, v)[j]
+//@ use mul_cmp(a, rmfS(h, l, c, v)[j+1], rmfS(h, l, c, v)[j])
+//@ use mul_cmp(a, mfS(h, l, c, v)[j], 0)
+//@ lemma mfiS_scale(h stream, l stream, c stream, v stream, h2 stream, l2 stream, c2 stream, v2 stream, a real, P int, n int, k int)
+//@ requires[C18] a > 0 && P >= 1 && 0 <= k && k + P < n && (forall j :: 0 <= j && j < n ==> rmfS(h2, l2, c2, v2)[j] == a * rmfS(h, l, c, v)[j]) && winS(negmfS(h, l, c, v), P)[k] != 0
+//@ ensures[C18] mfiS(h2, l2, c2, v2, P)[k] == mfiS(h, l, c, v, P)[k]
+//@ use[cond] mfS_scale(h, l, c, v, h2, l2, c2, v2, a, _)
+//@ use smaS_scale(posmfS(h, l, c, v), posmfS(h2, l2, c2, v2), a, P, k)
+//@ use smaS_scale(negmfS(h, l, c, v), negmfS(h2, l2, c2, v2), a, P, k)
+//@ use ratio_scale(a, winS(posmfS(h, l, c, v), P)[k], winS(negmfS(h, l, c, v), P)[k])
